@@ -139,4 +139,42 @@ theorem processObj_snapshot_queues (recur : Node → Sid → Bytes → Node × O
     simp only [hmiss]
     exact ⟨hfold names n hall (fun _ => rfl), rfl⟩
 
+
+/-! ### the `resolve` line (C13's replicated resolution) -/
+
+theorem resolveMsg_shape (op : Nat) (db key value : Bytes) (ver : Int) :
+    resolveMsg op db key value ver = b!"resolve" ++ 32 :: (Bytes.ofNat op ++ 32 :: (db ++ 32 :: (key ++ 32 :: (ofInt ver ++ 32 :: value)))) := by
+  simp [resolveMsg]
+
+/-- **resolve**: the line a node prints for a resolution reads back as that resolution — the same operation,
+the same DATABASE (the one the command named), key, version and value -/
+theorem parse_resolveMsg (op : Nat) (db key value : Bytes) (ver : Int) (hop : op < u64Bound) (w : WireOk db key value) (hdbnl : 10 ∉ db)
+    (hv : fitsI32 ver = true) :
+    Request.parse (resolveMsg op db key value ver) = .ok (.resolve op db key value ver) := by
+  unfold Request.parse
+  have hlast : (resolveMsg op db key value ver).getLast? ≠ some 59 := by
+    rw [resolveMsg_shape, getLast?_sep, if_neg (by simp), getLast?_sep, if_neg (by simp), getLast?_sep, if_neg (by simp), getLast?_sep, if_neg (by simp), getLast?_sep]
+    split
+    · simp
+    · exact w.val_semi
+  rw [trimEnd_id 59 _ hlast, resolveMsg_shape]
+  rw [splitn_cons 32 1 _ _ (by decide), splitn_cons 32 0 _ _ (ofNat_not_mem op 32 (by decide))]
+  simp only [splitn]
+  have hcmd : (b!"resolve" = ([] : Bytes)) = False := by simp
+  simp only [hcmd, if_false]
+  unfold parseArgs
+  simp only [List.getElem?_cons_zero, List.getElem?_cons_succ, Option.getD_some]
+  have h4 : splitn 32 4 (db ++ 32 :: (key ++ 32 :: (ofInt ver ++ 32 :: value))) = [db, key, ofInt ver, value] := by
+    rw [splitn_cons 32 2 _ _ w.db_sp, splitn_cons 32 1 _ _ w.key_sp, splitn_cons 32 0 _ _ (ofInt_not_mem ver 32 (by decide) (by decide))]
+    simp [splitn]
+  simp (decide := true) only [h4, List.getElem?_cons_zero, List.getElem?_cons_succ, Option.getD_some, if_false, if_true,
+    parseU64_ofNat op hop, parseVersionField_ofInt ver hv, noNl, dropByte_id 10 key w.key_nl, dropByte_id 10 value w.val_nl, dropByte_id 10 db hdbnl]
+
+/-- what a node prints for a resolve names the database of the COMMAND, whatever the session has selected -/
+theorem replicateRequestCore_resolve (n : Node) (op : Nat) (db key value : Bytes) (ver : Int) (sel : Option Bytes) (r : Resp) :
+    n.replicateRequestCore (.resolve op db key value ver) sel r =
+      ((n.replicateWeb (resolveMsg op db key value ver)).1, .ok, (n.replicateWeb (resolveMsg op db key value ver)).2) := by
+  unfold Node.replicateRequestCore
+  simp only []
+
 end Nun
